@@ -33,6 +33,9 @@ def encode_array(obj):
             "type_code": obj.type_code,
         }
 
+    # per-line variables hold plain lists
+    obj = np.asarray(obj)
+
     def default_encode(obj):
         return obj.tolist(), {}
 
